@@ -156,8 +156,16 @@ pub fn ip_block(lo: u128, hi: u128, width: u32, force_range: bool) -> Vec<u8> {
 }
 
 /// content of the IP resources extension for both families
-pub fn ip_ext(v4: &Res, v6: &Res) -> Option<Vec<u8>> {
+pub fn ip_ext(v4: &Res, v6: &Res) -> Option<Vec<u8>> { ip_ext_with(&[], v4, v6) }
+
+/// the same with additional families in front
+pub fn ip_ext_with(extra: &[(u8, Vec<(u128, u128)>)], v4: &Res, v6: &Res) -> Option<Vec<u8>> {
     let mut fams = Vec::new();
+    for (afi, b) in extra {
+        let width = if *afi == 1 { 32 } else { 128 };
+        fams.push(der::seq(&[der::octets(&[0, *afi]),
+            der::seq(&b.iter().map(|(lo, hi)| ip_block(*lo, *hi, width, false)).collect::<Vec<_>>())]));
+    }
     for (afi, width, r) in [(1u8, 32u32, v4), (2u8, 128u32, v6)] {
         match r {
             Res::Missing => {}
@@ -236,6 +244,13 @@ pub struct CertSpec {
     pub v4: Res,
     pub v6: Res,
     pub asn: Res,
+    /// additional address families written in front of the regular ones inside the IP resources extension
+    /// (afi 1 / 2, blocks) - a certificate no reader may accept when a family occurs twice
+    pub extra_fams: Vec<(u8, Vec<(u128, u128)>)>,
+    /// a second IP resources extension written before the regular one
+    pub extra_ip_ext: Option<Vec<(u128, u128)>>,
+    /// a second AS resources extension written before the regular one
+    pub extra_as_ext: Option<Vec<(u128, u128)>>,
 }
 
 fn gn_uri(u: &str) -> Vec<u8> { der::ctx(6, false, u.as_bytes()) }
@@ -270,8 +285,14 @@ pub fn encode_tbs(s: &CertSpec) -> Vec<u8> {
     exts.push(ext(CE_POLICIES, true,
         &der::seq(&[der::seq(&[der::oid(if s.trim { CP_RESOURCES_V2 } else { CP_RESOURCES })])])));
     let v2 = s.trim != s.res_oid_mismatch;
-    if let Some(ip) = ip_ext(&s.v4, &s.v6) {
+    if let Some(b) = &s.extra_ip_ext {
+        if let Some(ip) = ip_ext(&Res::Blocks(b.clone()), &Res::Missing) { exts.push(ext(if v2 { PE_IP_V2 } else { PE_IP }, true, &ip)); }
+    }
+    if let Some(ip) = ip_ext_with(&s.extra_fams, &s.v4, &s.v6) {
         exts.push(ext(if v2 { PE_IP_V2 } else { PE_IP }, true, &ip));
+    }
+    if let Some(b) = &s.extra_as_ext {
+        if let Some(a) = as_ext(&Res::Blocks(b.clone())) { exts.push(ext(if v2 { PE_AS_V2 } else { PE_AS }, true, &a)); }
     }
     if let Some(a) = as_ext(&s.asn) {
         exts.push(ext(if v2 { PE_AS_V2 } else { PE_AS }, true, &a));
@@ -327,6 +348,9 @@ impl Pool {
             v4: Res::Missing,
             v6: Res::Missing,
             asn: Res::Missing,
+            extra_fams: Vec::new(),
+            extra_ip_ext: None,
+            extra_as_ext: None,
         }
     }
 
